@@ -172,8 +172,18 @@ def gl3(prog):
             else:
                 alts.append((pred_b, x))
         collect(t, b)
-    found_alts = [(b, x) for b, x in alts if not mir.is_call(strip(x), "alloc")]
-    alloc_alts = [(b, x) for b, x in alts if mir.is_call(strip(x), "alloc")]
+    # private helpers of the table that allocate (the allocation block may have been extracted into one)
+    T_ = "backing_store::bump_table::BackedRobinhoodTable"
+    helpers = {}
+    for g in prog.lib_fns:
+        if g.impl_self == T_ and g is not fn and any(c.callee.name == "alloc" for c in g.terms.calls):
+            helpers[g.name] = g
+
+    def is_alloc(x):
+        x = strip(x)
+        return mir.is_call(x, "alloc") or (x[0] == "call" and x[1].name in helpers)
+    found_alts = [(b, x) for b, x in alts if not is_alloc(x)]
+    alloc_alts = [(b, x) for b, x in alts if is_alloc(x)]
     if not found_alts or not alloc_alts:
         raise CheckerError("get_or_insert_by_hash: expected both found and allocated return paths")
     for b, x in found_alts:
@@ -200,11 +210,27 @@ def gl3(prog):
     for cs in news:
         if not (mir.is_call(strip(cs.args[0]), "alloc") and cs.args[1] == hashp):
             errs.append("line %d: new entry is not (alloc(elem), hash, psl): %s" % (cs.line, [show(a) for a in cs.args]))
-    if len(news) < 2:
-        errs.append("expected two insertion sites, found %d" % len(news))
+    sites = len(news)
     for cs in te.calls:
         if cs.callee.name == "alloc" and cs.args[-1] != elemp:
             errs.append("line %d: allocates something other than the requested element" % cs.line)
+    # insertion through an allocating helper: the helper builds (alloc(its element parameter), its hash parameter, ..)
+    # and is called with the request's element and hash in those positions
+    for hname, g in helpers.items():
+        gte = g.terms
+        gnews = [cs for cs in gte.calls if cs.callee.name == "new" and "HashTableElement" in cs.callee.key()]
+        for cs in gnews:
+            a0, a1 = strip(cs.args[0]), strip(cs.args[1])
+            if not (mir.is_call(a0, "alloc") and strip(a0[2][-1])[0] == "param" and a1[0] == "param"):
+                errs.append("%s: new entry is not (alloc(elem), hash, psl) of its parameters: %s" % (hname, [show(a) for a in cs.args]))
+                continue
+            pe, ph = strip(a0[2][-1])[1], a1[1]
+            for call in [c for c in te.calls if c.callee.name == hname]:
+                sites += 1
+                if strip(call.args[pe - 1]) != elemp or strip(call.args[ph - 1]) != hashp:
+                    errs.append("line %d: %s is not given the requested element and its hash" % (call.line, hname))
+    if sites < 2:
+        errs.append("expected two insertion sites, found %d" % sites)
     out.append(inst("GL", "%s:GL3:insert-entry" % fn.npath, VIOLATION if errs else OK, fn, None,
                     "; ".join(errs) if errs else "new entries = (alloc(elem), hash, psl)"))
     return out
